@@ -231,6 +231,13 @@ class Ctx:
 
         WORK.mkdir(parents=True, exist_ok=True)
         self.work = Path(tempfile.mkdtemp(prefix=f"{prop}_{os.getpid()}_", dir=str(WORK)))
+        # a private temporary directory for everything this process (and its children) creates through `tempfile`:
+        # checks that look for leftover temporary files must not see what other processes do in the shared /tmp
+        self._old_tmp = (tempfile.tempdir, os.environ.get("TMPDIR"))
+        self.tmp = self.work / "_tmp"
+        self.tmp.mkdir()
+        tempfile.tempdir = str(self.tmp)
+        os.environ["TMPDIR"] = str(self.tmp)
 
     # -- bookkeeping -------------------------------------------------------------------------
     def count(self, name, n=1):
@@ -263,6 +270,14 @@ class Ctx:
         return time.time() - self.t0
 
     def cleanup(self):
+        import tempfile
+
+        if tempfile.tempdir == str(self.tmp):
+            tempfile.tempdir = self._old_tmp[0]
+            if self._old_tmp[1] is None:
+                os.environ.pop("TMPDIR", None)
+            else:
+                os.environ["TMPDIR"] = self._old_tmp[1]
         shutil.rmtree(self.work, ignore_errors=True)
 
 
